@@ -69,7 +69,7 @@ def precision_expr_ok(func, node):
     return ok, f"`{norm_src(node)}` evaluates to {got} for float16/32/64; the precision is {dict((b, PREC[b]) for b in BITS)}"
 
 
-def next_direction_ok(ret):
+def next_direction_ok(ret, cname="c"):
     """next(x, up): moving away from zero divides by c < 1, moving towards zero multiplies.  Semantic: evaluate the
     selected arm on x = +-1, c = 1/2 for both directions."""
     v = ret.value
@@ -84,10 +84,10 @@ def next_direction_ok(ret):
         if not (isinstance(arm, ast.Call) and (call_name(arm) or "").endswith("select") and len(arm.args) == 3):
             return False, f"arm `{norm_src(arm)}` is not a select"
         for x in (1.0, -1.0):
-            c = ev(arm.args[0], {"x": x, "c": 0.5})
+            c = ev(arm.args[0], {"x": x, cname: 0.5})
             if not isinstance(c, bool):
                 return False, f"condition `{norm_src(arm.args[0])}` is not a sign test of x"
-            val = ev(arm.args[1] if c else arm.args[2], {"x": x, "c": 0.5})
+            val = ev(arm.args[1] if c else arm.args[2], {"x": x, cname: 0.5})
             if not isinstance(val, float):
                 return False, f"selected value `{norm_src(arm.args[1] if c else arm.args[2])}` is not arithmetic in x and c"
             res[(up, x)] = val
@@ -107,14 +107,18 @@ def run(repo, tier):
     r.trusted_base = ["Python ast", "IEEE-754 binary16/32/64 precisions"]
     r.assumptions = ["formulas P = 2^(p-1)+1, Q = 2^(p-1) (Graillat, Muller hal-04624238) are the correct ones"]
     r.rule("R11.1", "P/Q constants equal 2^(p-1)+1 / 2^(p-1) (resp. 2^(p-2)+1 / 2^(p-2)) at every definition site and in the docstrings", floor=12)
-    r.rule("R11.2", "next(): the multiplier constant is 1 - 2^-p with p the precision of the dtype", floor=1)
+    r.rule("R11.2", "next(): the multiplier constant is 1 - 2^-p with p the precision of the dtype; direction of the step", floor=4)
     r.rule("R11.3", "the emulated FMA variants call two_prod with fix_overflow, and that guard is the sign-symmetric |xh*yh| > largest fallback", floor=2)
 
     want = {"Q": lambda p: 2 ** (p - 1), "P": lambda p: 2 ** (p - 1) + 1}
     want13 = {"Q": lambda p: 2 ** (p - 2), "P": lambda p: 2 ** (p - 2) + 1}
 
-    # ---- site 1: get_is_power_of_two_constants (dtype switch on `largest`)
+    # ---- site 1: get_is_power_of_two_constants (dtype switch on `largest`); the interface is the order of the returned pair (Q, P)
     f = repo.func(REL, "get_is_power_of_two_constants")
+    rets = [n for n in ast.walk(f) if isinstance(n, ast.Return)]
+    if len(rets) != 1 or not isinstance(rets[0].value, ast.Tuple) or len(rets[0].value.elts) != 2 or not all(isinstance(e, ast.Name) for e in rets[0].value.elts):
+        raise AnalysisError("get_is_power_of_two_constants: `return <Q>, <P>` not found")
+    role = {rets[0].value.elts[0].id: "Q", rets[0].value.elts[1].id: "P"}
     env = {}
     found = set()
     for st in f.body:
@@ -125,57 +129,52 @@ def run(repo, tier):
                 env[nm] = v.args[0]
                 continue
             # strip .reference(...)
-            ref = None
             while isinstance(v, ast.Call) and isinstance(v.func, ast.Attribute) and v.func.attr == "reference":
-                ref = v
                 v = v.func.value
             if isinstance(v, ast.Call) and (call_name(v) or "").endswith("select"):
+                rl = role.get(nm)
                 sw, why = dtype_switch(v)
                 if sw is None:
-                    r.ob("R11.1", f"{REL}::get_is_power_of_two_constants {nm} dtype switch", False, why, loc(REL, st))
+                    r.ob("R11.1", f"{REL}::get_is_power_of_two_constants {rl or nm} dtype switch", False, why, loc(REL, st))
                     continue
-                if nm not in want:
+                if rl is None:
                     continue
-                found.add(nm)
+                found.add(rl)
                 for bits, node in sw.items():
                     if not (isinstance(node, ast.Name) and node.id in env):
                         raise AnalysisError(f"get_is_power_of_two_constants: branch `{norm_src(node)}` is not one of the constants")
                     val = ev(env[node.id])
-                    exp = want[nm](PREC[bits])
+                    exp = want[rl](PREC[bits])
                     r.ob(
                         "R11.1",
-                        f"{REL}::get_is_power_of_two_constants {nm} float{bits}",
+                        f"{REL}::get_is_power_of_two_constants {rl} float{bits}",
                         val == exp,
                         f"`{norm_src(env[node.id])}` evaluates to {val} (= 2**{val.bit_length() - 1}{'' if val & (val - 1) == 0 else ' + ...'}) under Python "
-                        f"precedence; {nm} for float{bits} must be {exp}" if isinstance(val, int) else f"not an integer constant: {val!r}",
+                        f"precedence; {rl} for float{bits} must be {exp}" if isinstance(val, int) else f"not an integer constant: {val!r}",
                         loc(REL, env[node.id]),
-                        sample=dict(rule="R11.1", site="get_is_power_of_two_constants", name=nm, bits=bits, expr=norm_src(env[node.id]), value=str(val)),
+                        sample=dict(rule="R11.1", site="get_is_power_of_two_constants", name=rl, bits=bits, expr=norm_src(env[node.id]), value=str(val)),
                     )
     if found != {"P", "Q"}:
         raise AnalysisError(f"get_is_power_of_two_constants: P/Q selects not both found ({found})")
 
-    # ---- sites 2/3: parameter functions with p = -fi.negep
+    # ---- sites 2/3: parameter functions returning dict(P=..., Q=...): evaluated per format under the finfo model
+    from sa.numconst import local_env, eval_for_format, check_getters
+    check_getters(r, repo, "R11.1")
     for fname, w in (("_is_power_of_two_parameters", want), ("_is_one_or_three_times_power_of_two_parameters", want13)):
         g = repo.func(REL, fname)
-        exprs = {}
-        pdef = None
-        for st in g.body:
-            if isinstance(st, ast.Assign) and isinstance(st.targets[0], ast.Name):
-                if st.targets[0].id == "p":
-                    pdef = st.value
-                elif st.targets[0].id in ("P", "Q"):
-                    exprs[st.targets[0].id] = st.value
-        if pdef is None:
-            raise AnalysisError(f"{fname}: assignment of p not found")
-        ok, detail = precision_expr_ok(g, pdef)
-        r.ob("R11.1", f"{REL}::{fname} p", ok, detail, loc(REL, g))
-        if set(exprs) != {"P", "Q"}:
-            raise AnalysisError(f"{fname}: P/Q assignments not found")
-        for nm, node in exprs.items():
+        rets = [n for n in ast.walk(g) if isinstance(n, ast.Return)]
+        entries = {}
+        if len(rets) == 1 and isinstance(rets[0].value, ast.Call) and dotted(rets[0].value.func) == "dict":
+            entries = {kw.arg: kw.value for kw in rets[0].value.keywords if kw.arg}
+        elif len(rets) == 1 and isinstance(rets[0].value, ast.Dict):
+            entries = {k.value: v for k, v in zip(rets[0].value.keys, rets[0].value.values) if isinstance(k, ast.Constant)}
+        if set(entries) != {"P", "Q"}:
+            raise AnalysisError(f"{fname}: `return dict(P=..., Q=...)` not found")
+        for nm, node in sorted(entries.items()):
             for bits in BITS:
-                val = ev(node, {"p": PREC[bits]})
+                val = eval_for_format(node, bits, g, local_env(g, bits))
                 exp = w[nm](PREC[bits])
-                r.ob("R11.1", f"{REL}::{fname} {nm} float{bits}", val == exp, f"`{norm_src(node)}` with p={PREC[bits]} gives {val}, expected {exp}", loc(REL, node))
+                r.ob("R11.1", f"{REL}::{fname} {nm} float{bits}", val == exp, f"`{norm_src(node)}` for float{bits} (p={PREC[bits]}) gives {val}, expected {exp}", loc(REL, node))
     # ---- docstring formulas
     for fname, w in (("is_power_of_two", want), ("is_one_or_three_times_power_of_two", want13)):
         g = repo.func(REL, fname)
@@ -194,26 +193,24 @@ def run(repo, tier):
                 val = ev(node, {"p": PREC[bits]})
                 exp = w[nm](PREC[bits])
                 r.ob("R11.1", f"{REL}::{fname} docstring {nm} float{bits}", val == exp, f"documented `{m.group(1).strip()}` gives {val}, code oracle {exp}", loc(REL, g))
-    # the test itself: D = P*x - Q*x compared with x
-    for fname in ("is_power_of_two", "is_one_or_three_times_power_of_two"):
+    # the test itself: D = P*x - Q*x compared with x (dataflow extraction, compared as normal forms)
+    from sa.kernels import Extractor, IN, CONST, normal as knf, Unsupported as KUnsupported
+    ex = Extractor(repo)
+    x_ = IN("x")
+    for fname, explicit in (("is_power_of_two", True), ("is_power_of_two", False), ("is_one_or_three_times_power_of_two", False)):
         g = repo.func(REL, fname)
-        env2 = {}
-        for st in g.body:
-            if isinstance(st, ast.Assign) and isinstance(st.targets[0], ast.Name):
-                env2[st.targets[0].id] = norm_src(st.value)
-        ok = env2.get("L") == "P * x" and env2.get("R") == "Q * x" and env2.get("D") == "L - R"
-        r.ob("R11.1", f"{REL}::{fname} kernel L=P*x, R=Q*x, D=L-R", ok, f"kernel is L={env2.get('L')}, R={env2.get('R')}, D={env2.get('D')}", loc(REL, g))
-        rets = sorted((n for n in ast.walk(g) if isinstance(n, ast.Return)), key=lambda n: n.lineno)
-        # `if invert: return D != x` then `return D == x`
-        texts = [norm_src(x.value) for x in rets]
-        inv = [t for t in texts if "!=" in t or ".ne(" in t]
-        eq = [t for t in texts if "==" in t or ".eq(" in t]
-        ok = len(inv) == 1 and len(eq) == 1 and all(re.search(r"\bD\b", t) and re.search(r"\bx\b", t) for t in texts)
-        inv_guard = False
-        for n in ast.walk(g):
-            if isinstance(n, ast.If) and norm_src(n.test) == "invert":
-                inv_guard = any(isinstance(x, ast.Return) and ("!=" in norm_src(x.value) or ".ne(" in norm_src(x.value)) for x in n.body)
-        r.ob("R11.1", f"{REL}::{fname} result D == x (D != x iff invert)", ok and inv_guard, f"returns {texts}", loc(REL, g))
+        for inv in (False, True):
+            P_, Q_ = (IN("P"), IN("Q")) if explicit else (CONST("P"), CONST("Q"))
+            args = [("opaque", "ctx"), x_] + ([Q_, P_] if explicit else [])
+            try:
+                got = ex.call(REL, fname, args, dict(invert=inv))
+                want_t = ("cmp", "!=" if inv else "==", ("op", "-", ("op", "*", P_, x_), ("op", "*", Q_, x_)), x_)
+                ok = knf(got) == knf(want_t)
+                detail = f"returns {got!r}"
+            except KUnsupported as e:
+                raise AnalysisError(f"{REL}::{fname}: kernel shape not understood: {e}")
+            r.ob("R11.1", f"{REL}::{fname} kernel P*x - Q*x {'!=' if inv else '=='} x ({'explicit' if explicit else 'default'} constants, invert={inv})", ok,
+                 f"{detail}; the test is (P*x - Q*x) {'!=' if inv else '=='} x", loc(REL, g))
 
     # ---- R11.3 overflow guard behind the fma variants
     from rules.C10 import check_mul_dekker_overflow, RefRepo
@@ -230,29 +227,29 @@ def run(repo, tier):
     if n_fma == 0:
         raise AnalysisError("no two_prod(..., fix_overflow=...) call found in the fma implementations")
 
-    # ---- R11.2 next()
+    # ---- R11.2 next(): the multiplier is whatever name the select arms multiply/divide x by
     nx = repo.func(REL, "next")
+    ret = [n for n in ast.walk(nx) if isinstance(n, ast.Return)][0]
+    mult = {y.id for b_ in ast.walk(ret.value) if isinstance(b_, ast.BinOp) and isinstance(b_.op, (ast.Mult, ast.Div)) for y in (b_.left, b_.right)
+            if isinstance(y, ast.Name) and y.id != "x"}
+    if len(mult) != 1:
+        raise AnalysisError(f"next(): the multiplier of x is not a single local (found {sorted(mult)})")
+    cname = next(iter(mult))
     cexpr = None
-    pexpr = None
     for st in nx.body:
-        if isinstance(st, ast.Assign) and isinstance(st.targets[0], ast.Name):
-            if st.targets[0].id == "p":
-                pexpr = st.value
-            if st.targets[0].id == "c" and isinstance(st.value, ast.Call) and (call_name(st.value) or "").endswith("constant"):
-                cexpr = st.value.args[0]
+        if isinstance(st, ast.Assign) and isinstance(st.targets[0], ast.Name) and st.targets[0].id == cname and cexpr is None:
+            v = st.value
+            if isinstance(v, ast.Call) and (call_name(v) or "").endswith("constant") and v.args:
+                cexpr = v.args[0]
     if cexpr is None:
-        raise AnalysisError("next(): constant c not found")
-    if pexpr is None:
-        raise AnalysisError("next(): assignment of p not found")
-    okp, detail = precision_expr_ok(nx, pexpr)
-    r.ob("R11.2", f"{REL}::next p", okp, detail, loc(REL, nx))
+        raise AnalysisError(f"next(): definition of the multiplier `{cname}` as ctx.constant(...) not found")
+    from sa.numconst import local_env, eval_for_format
     for bits in BITS:
         p = PREC[bits]
-        val = ev(cexpr, {"p": p})
-        ok = isinstance(val, float) and Fraction(val) == 1 - Fraction(1, 2 ** p) if bits == 64 else isinstance(val, float) and abs(Fraction(val) - (1 - Fraction(1, 2 ** p))) == 0
-        r.ob("R11.2", f"{REL}::next multiplier float{bits}", ok, f"`{norm_src(cexpr)}` with p={p} gives {val!r}, expected 1 - 2**-{p}", loc(REL, cexpr))
+        val = eval_for_format(cexpr, bits, nx, local_env(nx, bits))
+        ok = isinstance(val, float) and Fraction(val) == 1 - Fraction(1, 2 ** p)
+        r.ob("R11.2", f"{REL}::next multiplier float{bits}", ok, f"`{norm_src(cexpr)}` for float{bits} (p={p}) gives {val!r}, expected 1 - 2**-{p}", loc(REL, cexpr))
     # direction selects
-    ret = [n for n in ast.walk(nx) if isinstance(n, ast.Return)][0]
-    ok, detail = next_direction_ok(ret)
-    r.ob("R11.2", f"{REL}::next direction", ok, f"next returns `{norm_src(ret.value)}`: moving away from zero must divide by c, towards zero multiply; {detail}", loc(REL, ret))
+    ok, detail = next_direction_ok(ret, cname)
+    r.ob("R11.2", f"{REL}::next direction", ok, f"next returns `{norm_src(ret.value)}`: moving away from zero must divide by the multiplier, towards zero multiply; {detail}", loc(REL, ret))
     return r
